@@ -472,6 +472,15 @@ where
     S: proptest::strategy::Strategy,
     S::Value: std::fmt::Debug,
 {
+    run_prop_shrink(ctx, stratum, cases, 4000, strat, f)
+}
+
+/// as `run_prop` with a bound on the number of shrinking steps (for cases that cost seconds each)
+pub fn run_prop_shrink<S>(ctx: &Ctx, stratum: &str, cases: u32, max_shrink_iters: u32, strat: S, f: impl Fn(&S::Value) -> Check)
+where
+    S: proptest::strategy::Strategy,
+    S::Value: std::fmt::Debug,
+{
     use proptest::test_runner::{Config, RngAlgorithm, RngSeed, TestCaseError, TestError, TestRunner};
     let algo = match std::env::var("VERIF_RNG").ok().as_deref() {
         Some("xorshift") => RngAlgorithm::XorShift,
@@ -482,7 +491,7 @@ where
         failure_persistence: None,
         rng_seed: RngSeed::Fixed(ctx.sub(stratum)),
         rng_algorithm: algo,
-        max_shrink_iters: 4000,
+        max_shrink_iters,
         max_local_rejects: 1_000_000,
         max_global_rejects: 1_000_000,
         verbose: 0,
